@@ -543,12 +543,19 @@ def check_inactive_case(seed, acc):
     for h in heads:
         ch = [[("inactive: " if rng.random() < 0.4 else "") + "%s%d x" % (rng.choice("abc"), i), []] for i in range(rng.randint(1, 3))]
         tree.append([("inactive: " if rng.random() < 0.4 else "") + h, ch])
+    mrng = random.Random(seed ^ 0x1AC7)
+    if mrng.random() < 0.6:
+        # a statement that merely mentions the mark further right (a description) is an ordinary, active statement of its own head word
+        h = mrng.choice(heads)
+        tree.insert(mrng.randrange(len(tree) + 1), ['%s "inactive: spare %d"' % (h, mrng.randint(1, 9)), []])
 
     def expect(vname):
         out = []
         for row, ch in tree:
             base = row[len("inactive: "):] if row.startswith("inactive: ") else row
-            if vname == "juniper":
+            if ' "inactive: ' in row:
+                ok = row.split()[0] in covered      # (a rule text matches the rows that begin with it)
+            elif vname == "juniper":
                 ok = base in covered
             else:
                 ok = row in covered
